@@ -407,7 +407,7 @@ def shard(cfg):
     def body(case):
         check_case(*case, rec=rec)
 
-    n, v, herr = hyp_search(strategy(), body, seed=cfg["seed"] * 1000 + cfg["shard"], max_examples=cfg["examples"])
+    n, v, herr = hyp_search(strategy(), body, seed=cfg["seed"] * 1000 + cfg["shard"], max_examples=cfg["examples"], case_cpu_s=30.0)
     res = rec.result()
     if v is not None:
         recv, pop, calls, sel = v.case
